@@ -135,6 +135,20 @@ def gen_setter_history(rng, schema, n_tracks=2, n_ops=30, big=False, first_id=No
         ops.append({"op": "raw_exec", "sql": "DELETE FROM PerformanceData WHERE id = (SELECT id FROM Track WHERE path = ?)", "params": [{"t": p0}]})
         metas.append(None)
         rate_count_ok["t0"] = False
+    if foreign_flags and not is_v2(schema):
+        # ... and with performance data as Engine writes it after the DJ has edited the grid by hand: the adjusted grid differs from
+        # the default one (this library always writes the two equal).  Planted by SQL into the first track before any setter runs.
+        from . import engine_codec as EC
+        s0 = ops[-n_tracks]["snap"]
+        o0 = rng.uniform(0, 5000)
+        spb = rng.uniform(15000, 30000)
+        nb = rng.randrange(64, 400)
+        dflt = [[0, GS.dbits(o0)], [nb, GS.dbits(o0 + nb * spb)]]
+        adj = [[0, GS.dbits(o0 + 321.5)], [nb // 2, GS.dbits(o0 + 321.5 + (nb // 2) * spb * 1.01)], [nb, GS.dbits(o0 + 321.5 + nb * spb)]]
+        blob = EC.ENC["v1_beat_data"]({"sample_rate": s0["sample_rate"], "sample_count": GS.dbits(float(s0["sample_count"])), "default": dflt, "adjusted": adj})
+        ops.append({"op": "raw_exec", "sql": "UPDATE PerformanceData SET beatData = ? WHERE id = (SELECT id FROM Track WHERE path = ?)",
+                    "params": [{"b": blob.hex()}, {"t": s0["relative_path"]}]})
+        metas.append(None)
     if foreign_flags:
         # the tracks as Engine DJ leaves them after the user has worked with them: grid locked, played, imported ... - columns no
         # getter shows and no setter is documented to consult
